@@ -474,7 +474,161 @@ def generate(repo=REPO):
     return f, changed
 
 
+# ---- round 6: the statement sequence of every file write (open(path, 'w')) -> lean/Cherab/Gen/RepoWrites.lean ----------
+OUT_WRITES = os.path.join(LEAN, 'Cherab', 'Gen', 'RepoWrites.lean')
+
+
+def _is_open_w(st):
+    if not isinstance(st, ast.With) or len(st.items) != 1:
+        return False
+    c = st.items[0].context_expr
+    return (isinstance(c, ast.Call) and isinstance(c.func, ast.Name) and c.func.id == 'open' and len(c.args) >= 2
+            and isinstance(c.args[1], ast.Constant) and c.args[1].value == 'w')
+
+
+def _has_call(node, dotted):
+    return any(isinstance(c, ast.Call) and ast.unparse(c.func) == dotted for c in ast.walk(node))
+
+
+def _safe_key(k, fn):
+    """subscript index that JSON can always serialise: str(..)/int(..)/encode_transition(..), a string constant, or a local
+    name every binding of which is one of those"""
+    if isinstance(k, ast.Constant) and isinstance(k.value, str):
+        return True
+    if isinstance(k, ast.Call) and isinstance(k.func, ast.Name) and k.func.id in ('str', 'int', 'encode_transition'):
+        return True
+    if isinstance(k, ast.Name):
+        binds = [a.value for a in ast.walk(fn) if isinstance(a, ast.Assign) and len(a.targets) == 1
+                 and isinstance(a.targets[0], ast.Name) and a.targets[0].id == k.id]
+        loops = [f for f in ast.walk(fn) if isinstance(f, (ast.For, ast.comprehension))
+                 and k.id in {n.id for n in ast.walk(f.target) if isinstance(n, ast.Name)}]
+        return bool(binds) and not loops and k.id not in _params(fn) and all(
+            not isinstance(b, ast.Name) and _safe_key(b, fn) for b in binds)
+    return False
+
+
+def _safe_value(v):
+    if isinstance(v, ast.Call) and isinstance(v.func, ast.Name) and v.func.id == 'float':
+        return True
+    if isinstance(v, ast.Call) and isinstance(v.func, ast.Attribute) and v.func.attr == 'tolist' and not v.args:
+        return True
+    if isinstance(v, ast.Dict):
+        return all(isinstance(k, ast.Constant) and isinstance(k.value, str) for k in v.keys) and all(_safe_value(x) for x in v.values)
+    return False
+
+
+def _built(expr, fn):
+    """is `expr` (X or X.freeze()) a local dictionary that json.dump cannot reject?"""
+    if isinstance(expr, ast.Call) and isinstance(expr.func, ast.Attribute) and expr.func.attr == 'freeze' and not expr.args:
+        expr = expr.func.value
+    if not isinstance(expr, ast.Name) or expr.id in _params(fn):
+        return False
+    x = expr.id
+    seen = False
+    for a in ast.walk(fn):
+        if isinstance(a, (ast.AugAssign, ast.AnnAssign)) and x in {n.id for n in ast.walk(a.target) if isinstance(n, ast.Name)}:
+            return False
+        if not isinstance(a, ast.Assign):
+            continue
+        for t in a.targets:
+            if isinstance(t, ast.Name) and t.id == x:
+                seen = True
+                if ast.unparse(a.value) not in ('RecursiveDict()', 'RecursiveDict.from_dict(json.load(f))', '{}', 'json.load(f)'):
+                    return False
+            elif isinstance(t, ast.Subscript):
+                keys, base = [], t
+                while isinstance(base, ast.Subscript):
+                    keys.append(base.slice)
+                    base = base.value
+                if isinstance(base, ast.Name) and base.id == x:
+                    if not all(_safe_key(k, fn) for k in keys) or not _safe_value(a.value):
+                        return False
+            elif x in {n.id for n in ast.walk(t) if isinstance(n, ast.Name)}:
+                return False
+    # any other mutation through a method call (update, setdefault, ...) is not recognised
+    for c in ast.walk(fn):
+        if isinstance(c, ast.Call) and isinstance(c.func, ast.Attribute) and isinstance(c.func.value, ast.Name) \
+                and c.func.value.id == x and c.func.attr not in ('freeze',):
+            return False
+    return seen
+
+
+def _steps_before(st, fn):
+    if _has_call(st, 'json.dumps'):
+        return ['serialise']
+    if isinstance(st, ast.If) and _has_call(st, 'os.makedirs') and not st.orelse and len(st.body) == 1:
+        return ['mkdirs']
+    if isinstance(st, ast.Expr) and isinstance(st.value, ast.Constant):
+        return []
+    return ['validate']
+
+
+def _steps_inside(st, fn, fvar):
+    if isinstance(st, ast.Expr) and isinstance(st.value, ast.Call):
+        c = st.value
+        name = ast.unparse(c.func)
+        if name == 'json.dump' and len(c.args) >= 2 and isinstance(c.args[1], ast.Name) and c.args[1].id == fvar:
+            return ['dumpBuilt' if _built(c.args[0], fn) else 'dumpCaller']
+        if name == fvar + '.write' and len(c.args) == 1 and isinstance(c.args[0], ast.Name):
+            return ['writeText']
+    return ['validate']
+
+
+def write_segments(repo=REPO):
+    """[(file:function, [step, ...])] for every `with open(path, 'w')` of the repository writers: the statements of the
+    block that contains the `with`, from the start of the block (one loop iteration / the function body), then the body
+    of the `with`.  Consecutive `validate`s are merged."""
+    base = os.path.join(repo, 'cherab', 'openadas', 'repository')
+    out = []
+    for rel in REPOSITORY_FILES:
+        p = os.path.join(repo, 'cherab', 'openadas', rel)
+        if not os.path.exists(p):
+            continue
+        tree = ast.parse(open(p).read())
+        short = os.path.relpath(p, base)
+        for fn in tree.body:
+            if not isinstance(fn, ast.FunctionDef):
+                continue
+            k = 0
+            for node in ast.walk(fn):
+                for field in ('body', 'orelse', 'finalbody'):
+                    block = getattr(node, field, None)
+                    if not isinstance(block, list):
+                        continue
+                    for i, st in enumerate(block):
+                        if not _is_open_w(st):
+                            continue
+                        steps = []
+                        for b in block[:i]:
+                            steps += _steps_before(b, fn)
+                        steps.append('openW')
+                        fvar = st.items[0].optional_vars.id if isinstance(st.items[0].optional_vars, ast.Name) else '?'
+                        for b in st.body:
+                            steps += _steps_inside(b, fn, fvar)
+                        merged = []
+                        for s in steps:
+                            if not (merged and merged[-1] == s == 'validate'):
+                                merged.append(s)
+                        out.append(('%s:%s' % (short, fn.name) + ('' if k == 0 else '#%d' % k), merged))
+                        k += 1
+    return out
+
+
+def writes_to_lean(segs):
+    rows = ',\n   '.join('(%s, [%s])' % (_s(n), ', '.join('.' + s for s in st)) for n, st in segs)
+    return ('/- GENERATED by harness/translators/repo_paths.py (write_segments) from /repo/cherab/openadas/repository — do not edit. -/\n'
+            'import Cherab.Model.RepoWrite\nnamespace Cherab.Gen.RepoWrites\nopen Cherab.RepoWrite\n\n'
+            'def writeSegments : List (String × List WStep) :=\n  [%s]\n\nend Cherab.Gen.RepoWrites\n' % rows)
+
+
+def generate_writes(repo=REPO):
+    segs = write_segments(repo)
+    changed = lean.write_if_changed(OUT_WRITES, writes_to_lean(segs))
+    return segs, changed
+
+
 if __name__ == '__main__':
     f, ch = generate()
     print(json.dumps(f, indent=1, default=str))
     print('changed' if ch else 'unchanged')
+    print(generate_writes())
